@@ -68,6 +68,7 @@ func TestMain(m *testing.M) { vk.Main(m, "C01") }
 
 // Case is one bitmap plus, for large bitmaps, the sampled probe positions.
 type Case struct {
+	Max    int          `json:"max,omitempty"` // v+1: the maximum bitmap, exactly 2^25 words = 2^31 bits, description v (gen.UseMax)
 	Words  vk.Words     `json:"words,omitempty"`
 	Big    *gen.BigSpec `json:"big,omitempty"`
 	Style  string       `json:"style,omitempty"`
@@ -88,12 +89,16 @@ var checker = &vk.Checker[Case]{
 	Rule: "bitmaps drawn by style (zero, ones, mixed palette/density words, sparse, dense, islands, exact-count, tail, palette) and length class, " +
 		"plus a complete grid of all bitmaps of 0..4 (thorough 0..5) words over a 12-word palette; every position 0<=i<64*len is queried for bitmaps <= 64 words " +
 		"(otherwise all word boundaries +-1, 2-word windows and sampled positions) with Rank64 (plain, false, true index) and Rank128, against a bit-by-bit running count; the indexes are checked and used only AFTER indexes of other bitmaps (other contents, shorter, longer) have been built, so a result that aliases library-owned memory is seen. " +
+		"Also the MAXIMUM bitmap - exactly 2^25 words = 2^31 bits, the largest one int32 positions address (three sparse descriptions, oracle from the description): indexes and ranks at the top positions, around every set word and in the long zero runs. " +
 		"Non-trivial: >= 2 words, contains both a 0 and a 1 (so a right-half Rank128 query with a non-zero own-word popcount is executed). Distinct by hash of the case.",
 	Check:    check,
 	Classify: classify,
 }
 
 func classify(c Case) (bool, []string) {
+	if c.Max > 0 {
+		return true, []string{"style:maximum-bitmap(2^25 words)"}
+	}
 	if len(c.Style) > 11 && c.Style[:11] == "cold-start:" {
 		return false, []string{"cold-start-failure"}
 	}
@@ -130,7 +135,58 @@ func classify(c Case) (bool, []string) {
 
 var scratch vk.Scratch
 
+// checkMax: ranks on the largest bitmap whose positions fit an int32 (sparse oracle from its description).
+func checkMax(v int) *vk.Failure {
+	if v < 0 || v >= gen.MaxVariants {
+		return nil
+	}
+	w := gen.UseMax(v)
+	var idxT, idx128 []int32
+	if f := vk.Try("IndexRank64/IndexRank128 on 2^25 words", func() {
+		idxT = bitmap.IndexRank64(w, true)
+		idx128 = bitmap.IndexRank128(w)
+	}); f != nil {
+		return f
+	}
+	if len(idxT) != gen.MaxWords+1 || len(idx128) != gen.MaxWords/2+1 {
+		return vk.Failf("index-len", "indexes of the 2^25-word bitmap have %d / %d entries", len(idxT), len(idx128))
+	}
+	for _, k := range gen.MaxSetWords() {
+		for _, j := range []int{k, k + 1} {
+			if want := gen.MaxRank(int64(j) * 64); int64(idxT[j]) != want {
+				return vk.Failf("index64-entry", "2^25-word bitmap: IndexRank64(true)[%d] = %d, want %d", j, idxT[j], want)
+			}
+		}
+		if want := gen.MaxRank(int64(k/2) * 128); int64(idx128[k/2]) != want {
+			return vk.Failf("index128-entry", "2^25-word bitmap: IndexRank128[%d] = %d, want %d", k/2, idx128[k/2], want)
+		}
+	}
+	for _, p := range gen.MaxProbes() {
+		wantC, wantB := int32(gen.MaxRank(p)), int32(gen.MaxBit(p))
+		var c1, b1, c2, b2 int32
+		if f := vk.Try(fmt.Sprintf("Rank64/Rank128 at %d on 2^25 words", p), func() {
+			c1, b1 = bitmap.Rank64(w, idxT, int32(p))
+			c2, b2 = bitmap.Rank128(w, idx128, int32(p))
+		}); f != nil {
+			return f
+		}
+		if c1 != wantC || b1 != wantB {
+			return vk.Failf("rank64", "2^25-word bitmap: Rank64(i=%d) = (%d,%d), want (%d,%d)", p, c1, b1, wantC, wantB)
+		}
+		if c2 != wantC || b2 != wantB {
+			return vk.Failf("rank128", "2^25-word bitmap: Rank128(i=%d) = (%d,%d), want (%d,%d)", p, c2, b2, wantC, wantB)
+		}
+	}
+	if k, bad := gen.MaxBitmapDamage(); bad {
+		return vk.Failf("argument-modified", "word %d of the 2^25-word bitmap was modified", k)
+	}
+	return nil
+}
+
 func check(c Case) (f *vk.Failure) {
+	if c.Max > 0 {
+		return checkMax(c.Max - 1)
+	}
 	if len(c.Style) > 11 && c.Style[:11] == "cold-start:" {
 		if coldStartResult != "" {
 			return vk.Failf("cold-start", "%s", coldStartResult)
@@ -439,6 +495,11 @@ func TestGrid(t *testing.T) {
 					checker.Run(t, Case{Words: w, Style: "grid-pow2-length"})
 				}
 			}
+		}
+	}
+	if shard == 0 {
+		for v := 0; v < gen.MaxVariants; v++ { // exactly 2^31 bits: the largest positions an int32 holds
+			checker.Run(t, Case{Max: v + 1, Style: "maximum"})
 		}
 	}
 	// a few very large bitmaps in every run (ranks above 2^16 / 2^22; size thresholds of any fast path)
